@@ -287,6 +287,9 @@ func runC03Random(c *fw.Ctx) {
 	e.Monitors = append(e.Monitors, mon)
 	w := MixWeights{Ent: 80, Reg: 5, Stream: 0, Bank: 10, Staking: 5, NestedPct: 10, GranterPct: 2, BadSeqPct: 3, GovPct: 0, EntHostile: 25, ExactFeePct: 100}
 	nb := r.Range(40, 70)
+	if c.Case%8 == 5 {
+		c03Crowd(c, e, g)
+	}
 	for b := 0; b < nb && e.Halted == ""; b += 5 {
 		if b > 0 && r.Chance(6) { // the order book must survive an export/import at any point of its lifecycle
 			e.Reimport()
@@ -335,4 +338,59 @@ func runC03Random(c *fw.Ctx) {
 	if c.Case%31 == 0 {
 		c.Sample(map[string]interface{}{"random_history_trace_tail": e.TraceTail(25)})
 	}
+}
+
+// c03Crowd: more than a default page (100) of orders waiting for decisions at once. Every one of
+// them - the last raised as much as the first - must be tallied in the block its quorum is
+// reached, and must go stale at its own deadline (the reference model follows each order).
+func c03Crowd(c *fw.Ctx, e *Env, g *Gen) {
+	e.Block(time.Second)
+	if e.Halted != "" || e.Last == nil {
+		return
+	}
+	var buyers []lab.Acct
+	for _, a := range e.L.Accts {
+		for _, w := range e.Last.Whitelist {
+			if ownerHex(w) == ownerHex(a.Addr.String()) {
+				buyers = append(buyers, a)
+			}
+		}
+	}
+	signers := g.signers(e.Last)
+	if len(buyers) == 0 || len(signers) == 0 {
+		return
+	}
+	denom := e.Last.EntParams.Denom
+	first := e.Last.NextPO
+	n := 104 + e.R.Intn(6)
+	for k := 0; k < n && e.Halted == ""; {
+		var txs []*TxPlan
+		for t := 0; t < 4 && k < n; t++ {
+			b := buyers[k%len(buyers)]
+			var msgs []sdk.Msg
+			for j := 0; j < 3 && k < n; j++ {
+				msgs = append(msgs, &enttypes.MsgUndPurchaseOrder{Purchaser: b.Addr.String(), Amount: sdk.NewInt64Coin(denom, int64(1000+k))})
+				k++
+			}
+			txs = append(txs, &TxPlan{Spec: lab.TxSpec{Msgs: msgs, Signers: []lab.Acct{b}, Gas: 2_000_000}, Desc: fmt.Sprintf("crowd: %d orders by a%d", len(msgs), g.idx(b))})
+		}
+		e.Block(time.Second, txs...)
+	}
+	if e.Halted != "" || e.Last.NextPO < first+uint64(n) {
+		return
+	}
+	// every signer accepts the three orders raised last and the very first one
+	var dec []*TxPlan
+	for _, s := range signers {
+		var msgs []sdk.Msg
+		for _, id := range []uint64{first + uint64(n) - 1, first + uint64(n) - 2, first + uint64(n) - 3, first} {
+			msgs = append(msgs, &enttypes.MsgProcessUndPurchaseOrder{PurchaseOrderId: id, Decision: enttypes.StatusAccepted, Signer: s.Addr.String()})
+		}
+		dec = append(dec, &TxPlan{Spec: lab.TxSpec{Msgs: msgs, Signers: []lab.Acct{s}, Gas: 2_000_000}, Desc: fmt.Sprintf("crowd: a%d accepts the last three and the first", g.idx(s))})
+	}
+	e.Block(time.Second, dec...)
+	e.Block(time.Second)
+	e.Block(time.Second)
+	c.Count("crowd_histories", 1)
+	c.Count("crowd_orders", int64(n))
 }
